@@ -125,9 +125,13 @@ def main() -> int:
             if not ok_d:
                 ctx.driver_ok = False
                 broken += [f"lake build modeldriver: module {m}" for m in C.failed_modules(log_d)]
+        # only what THIS property's theorems import counts: a rewrite the translator cannot follow in some other part of the code
+        # is not this property's business
+        areas = C.gen_areas(prop)
+        gen_missing = [m for m in gen_missing if not isinstance(m, tuple) or m[0] in areas]
         if gen_missing:
             proof_ok = False
-            broken += [f"translator: {m}" for m in gen_missing]
+            broken += [f"translator ({m[0]}): {m[1]}" if isinstance(m, tuple) else f"translator: {m}" for m in gen_missing]
 
     # 3. audit -----------------------------------------------------------------------------
     names = C.theorem_names(prop)
